@@ -485,7 +485,7 @@ fn generate(seed: u64, tier: Tier, em: &mut Emitter) {
             &["exhaustive", "non-ascii"],
         );
     }
-    // keys containing a line feed: `?` and `**` do not match it (known-finding class)
+    // keys containing a line feed: `?` and `**` match it since the fix dae5143 (`(?s)` flag)
     for p in [vec![63u32], vec![42], vec![42, 42], vec![97], vec![10], vec![97, 63], vec![42, 42, 97]]
     {
         emit(em, "sweep", json!([p, [10, 47, 97], 2]), &["exhaustive", "line-feed"]);
